@@ -21,6 +21,7 @@ type ParallelStats struct {
 	Merged   map[string]int
 	IfConv   int
 	Poisoned int
+	Undecided int
 	Terms    int
 }
 
@@ -75,6 +76,7 @@ func ParallelExplore(fn *ssa.Function, n int, mk WorkerFactory, maxPaths int, wa
 				}
 				st.IfConv += x.IfConv
 				st.Poisoned += x.Poisoned
+				st.Undecided += x.Undecided
 				mu.Unlock()
 				x.S.Close()
 			}()
